@@ -58,6 +58,8 @@ pub enum HFault {
     /// one array made longer (a copy of its last element, or 0, appended: `grow` 1 or 3) or shorter
     /// (its last element removed: `grow` -1)
     ArrayLen { site: Site, grow: i32 },
+    /// two numeric entries of one stream dictionary set to the same boundary value
+    Pair { a: Site, b: Site, text: String },
 }
 
 const HOSTILE_STRINGS: [&[u8]; 14] = [
@@ -108,6 +110,7 @@ impl HFault {
     pub fn obj_num(&self) -> Option<u32> {
         match self {
             HFault::Retarget { site, .. } | HFault::Boundary { site, .. } | HFault::Nest { site, .. } | HFault::DropKey { site } | HFault::StrValue { site, .. } | HFault::NameValue { site, .. } | HFault::ArrayLen { site, .. } => Some(site.num),
+            HFault::Pair { a, .. } => Some(a.num),
             HFault::LenRef { num, .. } | HFault::Payload { num, .. } | HFault::StreamKey { num, .. } | HFault::SelfArray { num, .. } => Some(*num),
             HFault::Override { .. } => None,
         }
@@ -126,6 +129,7 @@ impl HFault {
             HFault::NameValue { .. } => "name_value",
             HFault::SelfArray { .. } => "self_array",
             HFault::ArrayLen { .. } => "array_length",
+            HFault::Pair { .. } => "boundary_pair",
         }
     }
     pub fn to_json(&self) -> J {
@@ -141,6 +145,7 @@ impl HFault {
             HFault::NameValue { site, name } => json!({"kind": "name_value", "site": site_json(site), "name": name}),
             HFault::SelfArray { rev, num, depth } => json!({"kind": "self_array", "rev": rev, "num": num, "depth": depth}),
             HFault::ArrayLen { site, grow } => json!({"kind": "array_length", "site": site_json(site), "grow": grow}),
+            HFault::Pair { a, b, text } => json!({"kind": "boundary_pair", "a": site_json(a), "b": site_json(b), "text": text}),
             HFault::StreamKey { rev, num, key, text } => json!({"kind": "stream_key", "rev": rev, "num": num, "key": key, "text": text.chars().take(80).collect::<String>(), "len": text.len()}),
         }
     }
@@ -154,6 +159,7 @@ impl HFault {
             "payload" => HFault::Payload { rev: j.get("rev")?.as_u64()? as usize, num: j.get("num")?.as_u64()? as u32, data: j.get("data")?.as_str()?.as_bytes().to_vec() },
             "drop_key" => HFault::DropKey { site: site_from(j.get("site")?)? },
             "string_value" => HFault::StrValue { site: site_from(j.get("site")?)?, bytes: crate::docgen::unhex(j.get("bytes")?.as_str()?)? },
+            "boundary_pair" => HFault::Pair { a: site_from(j.get("a")?)?, b: site_from(j.get("b")?)?, text: j.get("text")?.as_str()?.to_string() },
             "array_length" => HFault::ArrayLen { site: site_from(j.get("site")?)?, grow: j.get("grow")?.as_i64()? as i32 },
             "self_array" => HFault::SelfArray { rev: j.get("rev")?.as_u64()? as usize, num: j.get("num")?.as_u64()? as u32, depth: j.get("depth")?.as_u64()? as usize },
             "name_value" => HFault::NameValue { site: site_from(j.get("site")?)?, name: j.get("name")?.as_str()?.to_string() },
@@ -330,9 +336,29 @@ pub fn single_faults_near(spec: &DocSpec, first: u32) -> Vec<HFault> {
                     out.push(HFault::Nest { site: Site { rev: ri, num, path: p.clone() }, depth: 25 });
                     out.push(HFault::Nest { site: Site { rev: ri, num, path: p.clone() }, depth: 5000 });
                 }
-                for p in nums {
+                for p in nums.iter() {
                     for b in BOUNDARIES {
                         out.push(HFault::Boundary { site: Site { rev: ri, num, path: p.clone() }, text: b.to_string() });
+                    }
+                    // geometry and codec parameters: small values next to the true one change how the
+                    // data divides into rows (a last row one byte short, one column too many, ...)
+                    if let Some(PathElem::Key(k)) = p.last() {
+                        if ["Columns", "Colors", "BitsPerComponent", "Predictor", "Rows", "K", "EarlyChange", "Width", "Height", "N", "First"].contains(&k.as_str()) {
+                            for b in ["2", "3", "4", "5", "7", "9", "15", "16", "17", "65535", "65536"] {
+                                out.push(HFault::Boundary { site: Site { rev: ri, num, path: p.clone() }, text: b.to_string() });
+                            }
+                        }
+                    }
+                }
+                // two numbers of one stream dictionary set to the same boundary value (an image whose
+                // /Width and /Columns agree on 0, say): only for streams, only pairs of scalar entries
+                if matches!(slot, Slot::Direct { body: Body::Stream { .. }, .. }) && nums.len() <= 10 {
+                    for i in 0..nums.len() {
+                        for j in i + 1..nums.len() {
+                            for b in ["0", "-1", "65535", "65536"] {
+                                out.push(HFault::Pair { a: Site { rev: ri, num, path: nums[i].clone() }, b: Site { rev: ri, num, path: nums[j].clone() }, text: b.to_string() });
+                            }
+                        }
                     }
                 }
                 let (mut r2, mut n2, mut strs, mut names) = (vec![], vec![], vec![], vec![]);
@@ -483,6 +509,17 @@ pub fn apply(spec: &DocSpec, faults: &[HFault]) -> DocSpec {
                     }
                 }
             }
+            HFault::Pair { a, b, text } => {
+                if let Some(slot) = s.revisions.get_mut(a.rev).and_then(|r| r.slots.get_mut(&a.num)) {
+                    if let Some(mut v) = slot_val(slot) {
+                        let ok1 = replace_at(&mut v, &a.path, Val::Raw(text.clone()));
+                        let ok2 = replace_at(&mut v, &b.path, Val::Raw(text.clone()));
+                        if ok1 || ok2 {
+                            set_slot_val(slot, v);
+                        }
+                    }
+                }
+            }
             HFault::ArrayLen { site, grow } => {
                 if let Some(slot) = s.revisions.get_mut(site.rev).and_then(|r| r.slots.get_mut(&site.num)) {
                     if let Some(mut v) = slot_val(slot) {
@@ -607,7 +644,8 @@ impl C14 {
             for v in singles.iter_mut() {
                 let mut k = 0usize;
                 v.retain(|f| {
-                    if matches!(f, HFault::NameValue { .. } | HFault::StrValue { .. }) {
+                    let big_pair = matches!(f, HFault::Pair { text, .. } if text.len() > 2);
+                    if matches!(f, HFault::NameValue { .. } | HFault::StrValue { .. }) || big_pair {
                         k += 1;
                         k % 3 == 0
                     } else {
